@@ -151,7 +151,7 @@ class C01Monitor(jobsim.Monitor):
                     fk.items[k].assemble.vector(field=fk.items[k].field)
                 Ki = fk.items[k].assemble.matrix().toarray()
                 a = float(np.abs(Ki - Ki.T).max())
-                if a > 1e-9 * (float(np.abs(Ki).max()) + 1e-300):
+                if a > 1e-7 * (float(np.abs(Ki).max()) + 1e-300):  # eigenvalue-based AD models: asymmetry up to ~1e-9 from rounding
                     self.V("symmetry", f"matrix of item {k} ({spec['type']}) is not symmetric (asymmetry {a:.3e}, scale {np.abs(Ki).max():.3e})", site=f"{spec['type']}.matrix")
                 self.log.count("symmetry-checked")
         # finite differences ----------------------------------------------------------------------
